@@ -121,7 +121,16 @@ def main():
     except BaseException:      # noqa: B902
         tb = traceback.format_exc()
         repo_src = os.path.join(os.path.realpath(common.REPO), 'src') + os.sep
-        if repo_src in tb or (os.path.join(common.REPO, 'src') + os.sep) in tb:
+        frames = traceback.extract_tb(sys.exc_info()[2])
+        site = os.path.basename(frames[-1].filename) if frames else ''
+        own_harness = (len(site) > 3 and site[0] == 'c' and site[1:3].isdigit()
+                       and os.path.dirname(os.path.abspath(frames[-1].filename)) == HARNESS)
+        if isinstance(sys.exc_info()[1], (KeyboardInterrupt, MemoryError)):
+            own_harness = False
+        # own_harness: the exception was raised inside the property's own harness code (cNN*.py) while it
+        # handled what the implementation returned (e.g. an attribute of an object that no longer has the
+        # shape the unchanged tree always produces) — same situation as a traceback through $ZODB_REPO/src
+        if own_harness or repo_src in tb or (os.path.join(common.REPO, 'src') + os.sep) in tb:
             os.makedirs(os.path.join(common.OUT, 'replay'), exist_ok=True)
             path = os.path.join(common.OUT, 'replay', '%s-harness-crash.json' % pid)
             with open(path, 'w') as f:
